@@ -599,6 +599,24 @@ func (ec *evalCtx) callSpec(x *spec.Call) Val {
 			return Val{T: t}
 		}
 		return Val{T: smt.IntLit(0)}
+	case "vnolit":
+		// vnolit(v, "s"): no element of the ...any argument built at this call site
+		// is a string literal containing s (decided statically; false when the
+		// argument list is not built at the call site)
+		boxes, ok := fc.varargs(ec.cur, ec.eval(x.Args[0]))
+		if !ok {
+			return Val{T: smt.False}
+		}
+		want := x.Args[1].(*spec.StrLit).Val
+		for _, b := range boxes {
+			if kindOf(b.ty) != KStr {
+				continue
+			}
+			if lit, isLit := fc.literalOf(fc.S.Resolve(b.v.T, 12)); isLit && strings.Contains(lit, want) {
+				return Val{T: smt.False}
+			}
+		}
+		return Val{T: smt.True}
 	case "vlit", "vprefix", "vstr", "vcount":
 		// the elements of a ...any argument built at this call site:
 		// vlit(v, i, "text"): element i is the string "text" (decided statically for literals);
